@@ -52,12 +52,15 @@ type Behaviour struct {
 	Jitter      time.Duration // plus a tape-drawn share of this
 	DropPct     int           // chance (percent) that an answer is omitted
 	DupPct      int           // chance that an answer is sent twice
-	StallPct    int           // chance that an answer is delayed by StallFor
-	StallFor    time.Duration
-	SilentAfter int // stops answering anything (also pings) after this many received messages (0 = never)
-	CloseAfter  int // closes the connection after this many received messages (0 = never)
-	NoPong      bool
-	AnnounceTx  bool // sends a tx inv right after the handshake
+	// HandshakeDrops: that many connections (the first ones) die after the
+	// client's version message arrived and before the node answered.
+	HandshakeDrops int
+	StallPct       int // chance that an answer is delayed by StallFor
+	StallFor       time.Duration
+	SilentAfter    int // stops answering anything (also pings) after this many received messages (0 = never)
+	CloseAfter     int // closes the connection after this many received messages (0 = never)
+	NoPong         bool
+	AnnounceTx     bool // sends a tx inv right after the handshake
 
 	// Headers.
 	MaxHeaders int // max headers per message (0 = 2000)
@@ -303,6 +306,14 @@ func (p *SimPeer) handle(msg wire.Message) {
 	}
 	switch m := msg.(type) {
 	case *wire.MsgVersion:
+		if b.HandshakeDrops > 0 {
+			// The connection dies in the middle of the handshake (the
+			// client's version has arrived, ours is never sent).
+			b.HandshakeDrops--
+			w.rc.Fault("net.handshake-drop")
+			p.disconnect("during the handshake")
+			return
+		}
 		me := wire.NewNetAddressIPPort(p.addr.IP, uint16(p.addr.Port), p.services)
 		you := wire.NewNetAddressIPPort(net.IPv4(10, 9, 9, 9), 0, 0)
 		v := wire.NewMsgVersion(me, you, uint64(0x1000+p.idx*7919+p.sessions), p.height())
